@@ -227,6 +227,25 @@ def inject(sl, ret=None, contract='', entry='', loops=(), closures=(), after=(),
             raise AnchorLost('return type of ' + sl.what)
         head = head2
     pos = [m for m in re.finditer(r'\bfor (\w+) in ([^{\n]+?) \{', body)]
+    # annotations name locals through placeholders, so that renaming a local does not detach the proof from the code:
+    #   $L<n> = variable of the n-th `for` loop, $M<n> = n-th `let mut` variable
+    loopvars = [m.group(1) for m in pos]
+    letmuts = [m.group(1) for m in re.finditer(r'\blet mut (\w+)', body)]
+
+    def subst(txt):
+        def f(m):
+            arr = loopvars if m.group(1) == 'L' else letmuts
+            i = int(m.group(2))
+            if i >= len(arr):
+                raise AnchorLost('%s: local %s%d of an annotation does not exist any more' % (sl.what, m.group(1), i))
+            return arr[i]
+        return re.sub(r'\$([LM])(\d)', f, txt)
+    entry = subst(entry)
+    loops = [(o, it, subst(inv)) for (o, it, inv) in loops]
+    loop_entry = [(o, subst(t)) for (o, t) in loop_entry]
+    loop_end = [(o, subst(t)) for (o, t) in loop_end]
+    after = [(subst(a), subst(b)) for (a, b) in after]
+    before = [(subst(a), subst(b)) for (a, b) in before]
     edits = []
     for (ordinal, itname, inv) in loops:
         if ordinal >= len(pos):
